@@ -9,7 +9,7 @@ CLAIMS = {
         'text': 'Decides the structural clauses of C05 for all inputs: ids are handed out once on every path of '
                 'from_opchains; no chain coefficient is dropped between the chain list and an edge (would have '
                 'reported F1); MPO.from_opgraph uses one layer ordering for labels, node map, columns and rows; '
-                'OpChain.padded length algebra.  Does not decide operator equality of the compiled graph.',
+                'OpChain.padded length algebra; a pending coefficient is absorbed exactly once, through the edges entering the end node; the bond index recorded in nid_map is the position in the layer list.  Does not decide operator equality of the compiled graph.',
         'design_ref': 'DESIGN.md 4.2, 5 (C05)',
         'note': TRUST + '; undecided: correctness of repartition + vertex cover as an algorithm',
     },
@@ -25,32 +25,34 @@ CLAIMS = {
                 'type table; limits: heap is flow-insensitive (weak updates), paths k-limited to 6',
     },
     'C07': {
-        'technique': 'static analysis: path-sensitive id typestate, sibling-table agreement, exactly-once-sink path rule, taint',
+        'technique': 'static analysis: path-sensitive id typestate, sibling-table agreement, exactly-once-sink path rule, taint, index-range entailment (Fourier-Motzkin), charge / parity typing of the explicit wiring',
         'text': 'Decides for every L at once (loops abstracted by fixpoints) that each node/edge id of the explicit '
                 'molecular constructions is fresh when handed to a constructor (reported F2, invisible below L=5), that '
                 'the creation / export / registration / lookup tables of the 2 x 12 node families agree, that every '
                 'non-raising path of the term functions adds exactly one edge carrying the coefficient, and that both '
-                'coefficient tensors reach both build paths.  Operator equality of the two paths is not decided.',
+                'coefficient tensors reach both build paths; every key of a node family lies in the range created for it, for all L (Fourier-Motzkin over the loop nests, L//2 as a symbol); skip guards agree between creation and wiring; every explicit edge conserves charge and carries the Jordan-Wigner string its position requires; the two halves of the gauge transform are mirror images with conjugation.  Operator equality of the two paths is not decided.',
         'design_ref': 'DESIGN.md 4.2, 4.6, 5 (C07)',
         'note': TRUST + '; the get() rule trusts the naming convention a_dag~C, a_ann~A',
     },
     'C16': {
-        'technique': 'static analysis: dominating-guard sets vs callee asserts, may-write sets (effects engine), call reachability, affine direction algebra',
+        'technique': 'static analysis: dominating-guard sets vs callee asserts, may-write sets (effects engine), call reachability, affine direction algebra, path-partitioned exactly-once counting',
         'text': 'Decides the structural clauses: the guards dominating the node-fusing merge contain the three fusion '
                 'conditions and every assert of merge_edges; rename/flip write every id-bearing location kind; '
                 'eids[d] <-> nids[1-d] complementarity at every site; nothing reachable from simplify can add a node '
                 'or edge (so it cannot grow the graph); add never writes the other graph and allocates above the '
-                'maximum id of both graphs.  Denotational equality of rewritten graphs is not decided.',
+                'maximum id of both graphs; OpGraphEdge.add is a sum of coefficient maps (each incoming coefficient enters exactly once on every path through the search loop).  Denotational equality of rewritten graphs is not decided.',
         'design_ref': 'DESIGN.md 4.6, 5 (C16)',
         'note': TRUST + '; callee resolution by the effects engine',
     },
     'C17': {
-        'technique': 'static analysis: id typestate, role-based AST pattern rules with definition expansion, list-length algebra',
+        'technique': 'static analysis: id typestate, role-based AST pattern rules with definition expansion, list-length algebra, definite assignment relative to loop entry, site-range typing of Kronecker products',
         'text': 'Decides the structural clauses of tree/automaton unfolding: ids unique on every path (incl. the guarded '
                 'reuse of the terminal id), site-dependent automaton edges are always read through the callable '
                 'dispatch at the site being unrolled, identity padding satisfies the callee length contract for all '
-                'counts, recursion distance bookkeeping, guards and co-indexing of the unrolled edges.  The denotation '
-                'of the resulting graph is not decided.',
+                'counts, recursion distance bookkeeping, guards and co-indexing of the unrolled edges, agreement of frontier and growth '
+                'end in both reachability sweeps, no value carried from one tree / child to the next, and the site order of every '
+                'Kronecker product in the dense-meaning routines (chain, tree, graph in both directions).  The denotation of the '
+                'unrolled graph as a sum over paths is not decided.',
         'design_ref': 'DESIGN.md 4.2, 4.6, 5 (C17)',
         'note': TRUST,
     },
@@ -65,11 +67,12 @@ CLAIMS = {
         'note': TRUST + '; reference networks transcribed from the docstrings',
     },
     'C14': {
-        'technique': 'static analysis: symbolic (affine) array shapes with interval reasoning over loop variables',
+        'technique': 'static analysis: symbolic (affine) array shapes with interval reasoning over loop variables, definite-assignment (must) analysis with possibly-empty loops, storage-dtype rule',
         'text': 'On every return path of the Lanczos and Arnoldi iterations - including the early-termination returns that '
                 'the suite never takes - the output sizes are mutually consistent (len(alpha) = len(beta)+1 = V.shape[1], '
-                'H square of order V.shape[1]) for all numiter >= 1 and n >= 1; every index/slice is proved in bounds; both '
-                'consumers are re-checked against every producer return record.  The Krylov relations themselves are not decided.',
+                'H square of order V.shape[1]) for all numiter >= 1 and n >= 1; every index/slice is proved in bounds; every local is '
+                'definitely assigned on every path (numiter = 1 leaves the iteration loop empty); the basis is stored complex and '
+                'starts with the normalised start vector.  The Krylov relations themselves are not decided.',
         'design_ref': 'DESIGN.md 4.7, 5 (C14)',
         'note': TRUST + '; assumes the callback maps a vector to a vector of the same length',
     },
@@ -78,8 +81,10 @@ CLAIMS = {
         'text': 'For all L (symbolically; the smallest lattices with L fixed): every local step of both TDVP integrators receives '
                 'the environments, MPO tensors and state tensors of its own sites, environments are never used stale, the '
                 'steps act at the orthogonality centre; per site/bond the step fractions sum to +1/-1 (a wrong half step or '
-                'sign is reported); -dt reaches the exponential; H is never written; the return value is the entry norm; '
-                'single-site TDVP reaches no bond-enlarging operation.  Conservation to rounding is not decided.',
+                'sign is reported); -dt reaches the exponential; H is never written and the operator of each local step is built from '
+                'the current H.A tensors; the return value is the factor of the initial normalisation and nothing changes psi '
+                'before it; single-site TDVP reaches no bond-enlarging operation; the Krylov basis is stored complex and '
+                'expm_krylov is homogeneous of degree 1 in its start vector.  Conservation to rounding is not decided.',
         'design_ref': 'DESIGN.md 4.3, 4.1, 5 (C08)',
         'note': TRUST + '; obligations that cannot be established for every position of a sweep are reported as violations',
     },
@@ -87,8 +92,9 @@ CLAIMS = {
         'technique': 'static analysis: symbolic extraction of the sub-step schedule and comparison with its reversal; canonical-form intervals',
         'text': 'Decides the structural reason for reversibility: for every L the schedule of local steps of one time step of '
                 'both integrators (kind, position affine in the loop variable, rational step fraction) is a palindrome, and '
-                'the split direction keeps every step at the orthogonality centre.  Exactness on a complete manifold and the '
-                'size of the reversibility defect are numerical and not decided.',
+                'the split direction keeps every step at the orthogonality centre; the reported norm is the factor of the initial '
+                'normalisation of the input; Krylov support rules as C08.  Exactness on a complete manifold and the size of the '
+                'reversibility defect are numerical and not decided.',
         'design_ref': 'DESIGN.md 4.3, 5 (C09)',
         'note': TRUST,
     },
@@ -97,7 +103,7 @@ CLAIMS = {
         'text': 'For all L >= 2: local eigenproblems are started from the current tensor with the effective Hamiltonian of the '
                 'right bonds, never with stale environments, on a mixed-canonical state; H is never written; each sweep ends '
                 'with the normalisation of the leftmost tensor; the recorded energy is the Ritz value of the last local '
-                'problem of the sweep.  Variational bounds, monotonicity and convergence are not decided.',
+                'problem of the sweep; every sweep poses a local problem at every site / every pair of neighbours (coverage for all L); the lowest Ritz pair is returned unchanged.  Variational bounds, monotonicity and convergence are not decided.',
         'design_ref': 'DESIGN.md 4.3, 4.1, 5 (C10)',
         'note': TRUST,
     },
@@ -116,7 +122,7 @@ CLAIMS = {
         'text': 'Decides the structural clauses: compression canonicalises in the opposite direction first and returns that '
                 'norm; the returned scale is |T| and the absorbed phase times it equals the trailing factor; both SVD '
                 'steps preserve the two-site product with singular values entering with total exponent 1; TT-SVD '
-                'truncates u, s, v and the bond label with one index set.  The error bounds themselves are not decided.',
+                'truncates u, s, v and the bond label with one index set; the truncation rule as in C12.  The error bounds themselves are not decided.',
         'design_ref': 'DESIGN.md 4.2-4.4, 5 (C13)',
         'note': TRUST + '; assumes the SVD contract U.diag(s).V == M (C12)',
     },
@@ -126,18 +132,19 @@ CLAIMS = {
                 'already sorted, no common charge): matrix axes and charge vectors are sorted together under the same '
                 'guard and un-sorted with argsort of the same permutation on the right axis; every block read / write '
                 'connects rows@q with cols@q of the shared charge q; the dummy-bond branch is a shape- and '
-                'charge-consistent factorisation with dimension one; inputs are never written.  Exactness and isometry of '
+                'charge-consistent factorisation with dimension one; inputs are never written (no in-place re-arrangement); factor '
+                'storage is inexact (F4) and charge storage integer.  Exactness and isometry of '
                 'the dense block factorisations (NumPy) are not decided.',
         'design_ref': 'DESIGN.md 4.5, 5 (C11)',
         'note': TRUST,
     },
     'C12': {
-        'technique': 'static analysis: frame / charge-tag typing of split_matrix_svd, bond-leg restriction rule, effects, leg-domain rules for split_mps_tensor',
+        'technique': 'static analysis: frame / charge-tag typing of split_matrix_svd, bond-leg restriction rule, effects, leg-domain rules for split_mps_tensor, degree / power / accumulation-order typing of the truncation rule',
         'text': 'Same frame and block rules as C11 for the SVD split (sibling implementation), plus: one retained index set '
                 'restricts u, s, v and q along the intermediate axis; the three routines never write their inputs (an '
                 'in-place normalisation of the singular values is reported); split_mps_tensor distributes the singular '
                 'values with total exponent 1 in all three modes, with the right charge orientation, and merging undoes the '
-                'split.  Which singular values are kept, the error identity and the tolerance bound are not decided.',
+                'split; the truncation rule clause by clause (relative weights, ascending accumulation across sectors, strict comparison, callers pass the singular values themselves).  The error identity and the tolerance bound as numerical statements are not decided.',
         'design_ref': 'DESIGN.md 4.5, 4.4, 4.1, 5 (C12)',
         'note': TRUST,
     },
